@@ -162,7 +162,15 @@ class SymReal:
 
     def __round__(self, ndigits=None):
         if ndigits is not None:
-            raise Unmodelled('round(x, ndigits) on a real proxy')
+            if not isinstance(ndigits, int) or not 0 <= ndigits <= 15:
+                raise Unmodelled('round(x, ndigits) with unusual ndigits')
+            # a real within half a unit of the last kept decimal place
+            ex = _ex()
+            name = ex.fresh_name('roundn')
+            r = ex.declare(name, 'real', lambda: z3.Real(name))
+            half = z3.RealVal('1/%d' % (2 * 10 ** ndigits))
+            ex.assume(z3.And(r - half <= self.e, self.e <= r + half))
+            return SymReal(r)
         ex = _ex()
         name = ex.fresh_name('round')
         r = ex.declare(name, 'int', lambda: z3.Int(name))
